@@ -6,7 +6,6 @@ import (
 	"io"
 	"os"
 	"runtime"
-	"strconv"
 	"strings"
 )
 
@@ -418,30 +417,54 @@ func baseSetMetatable(L *LState) int {
 
 func baseToNumber(L *LState) int {
 	base := L.OptInt(2, 10)
-	noBase := L.Get(2) == LNil
-
-	switch lv := L.CheckAny(1).(type) {
-	case LNumber:
-		L.Push(lv)
-	case LString:
-		if noBase {
+	if base == 10 {
+		// standard conversion: the same reader as the lexer and arithmetic coercion
+		switch lv := L.CheckAny(1).(type) {
+		case LNumber:
+			L.Push(lv)
+		case LString:
 			if v, err := parseNumber(string(lv)); err != nil {
 				L.Push(LNil)
 			} else {
 				L.Push(v)
 			}
-		} else {
-			str := strings.Trim(string(lv), " \n\t")
-			if v, err := strconv.ParseInt(str, base, LNumberBit); err != nil {
-				L.Push(LNil)
-			} else {
-				L.Push(LNumber(v))
-			}
+		default:
+			L.Push(LNil)
 		}
-	default:
+		return 1
+	}
+	str := L.CheckString(1)
+	if base < 2 || base > 36 {
+		L.ArgError(2, "base out of range")
+	}
+	if v, ok := parseInteger(str, base); ok {
+		L.Push(v)
+	} else {
 		L.Push(LNil)
 	}
 	return 1
+}
+
+// parseInteger reads an integer numeral written in the given base (2..36):
+// blanks, an optional sign, an optional 0x for base 16, at least one digit, blanks.
+func parseInteger(str string, base int) (LNumber, bool) {
+	str = strings.Trim(str, " \t\n\r\f\v")
+	neg := false
+	if len(str) > 0 && (str[0] == '-' || str[0] == '+') {
+		neg = str[0] == '-'
+		str = str[1:]
+	}
+	if base == 16 && len(str) > 2 && str[0] == '0' && (str[1] == 'x' || str[1] == 'X') {
+		str = str[2:]
+	}
+	v, ok := parseDigits(str, base)
+	if !ok {
+		return 0, false
+	}
+	if neg {
+		v = -v
+	}
+	return v, true
 }
 
 func baseToString(L *LState) int {
